@@ -235,6 +235,9 @@ func (repo *BlockRepository) getHash(ctx context.Context, height int) (*bitcoin.
 	if height > repo.height {
 		return nil, errors.New("Hash height beyond tip") // We don't know the hash for that height yet
 	}
+	if height < 0 {
+		return nil, ErrInvalidHeight
+	}
 
 	if repo.height-height < len(repo.lastHeaders) {
 		// This height is in the lastHeaders set
@@ -269,7 +272,7 @@ func (repo *BlockRepository) Time(ctx context.Context, height int) (uint32, erro
 
 // This function is internal and doesn't lock the mutex so it can be internally without double locking.
 func (repo *BlockRepository) getTime(ctx context.Context, height int) (uint32, error) {
-	if height > repo.height {
+	if height > repo.height || height < 0 {
 		return 0, nil // We don't know the hash for that height yet
 	}
 
@@ -309,7 +312,7 @@ func (repo *BlockRepository) Header(ctx context.Context, height int) (*wire.Bloc
 
 // This function is internal and doesn't lock the mutex so it can be internally without double locking.
 func (repo *BlockRepository) getHeader(ctx context.Context, height int) (*wire.BlockHeader, error) {
-	if height > repo.height {
+	if height > repo.height || height < 0 {
 		return nil, ErrInvalidHeight // We don't know the header for that height yet
 	}
 
@@ -344,14 +347,25 @@ func (repo *BlockRepository) Revert(ctx context.Context, height int) error {
 	if height > repo.height {
 		return errors.New(fmt.Sprintf("Revert height %d above current height %d", height, repo.height))
 	}
+	if height < 0 {
+		return errors.Wrap(ErrInvalidHeight, fmt.Sprintf("Revert height %d", height))
+	}
 
-	// Revert heights map
+	// The latest file may never have been saved, or may have grown since it was saved. Save it so
+	// the files below describe the current chain.
+	if err := repo.save(ctx); err != nil {
+		return errors.Wrap(err, "Failed to save before revert")
+	}
+
+	// Collect the hashes to remove from the heights map. They are only removed after the files are
+	// reverted so a failed revert doesn't leave the map inconsistent with the height.
+	removedHashes := make([]bitcoin.Hash32, 0, repo.height-height)
 	for removeHeight := repo.height; removeHeight > height; removeHeight-- {
 		hash, err := repo.getHash(ctx, removeHeight)
 		if err != nil {
 			return errors.Wrap(err, "Failed to revert block heights map")
 		}
-		delete(repo.heights, *hash)
+		removedHashes = append(removedHashes, *hash)
 	}
 
 	// Height of last block of latest full file
@@ -384,7 +398,7 @@ func (repo *BlockRepository) Revert(ctx context.Context, height int) error {
 	}
 
 	// Cache needs to be reset with last file's state.
-	repo.lastHeaders = make([]wire.BlockHeader, 0, blocksPerKey)
+	lastHeaders := make([]wire.BlockHeader, 0, blocksPerKey)
 	buf := bytes.NewBuffer(data)
 	header := wire.BlockHeader{}
 	for buf.Len() > 0 {
@@ -392,9 +406,15 @@ func (repo *BlockRepository) Revert(ctx context.Context, height int) error {
 		if err != nil {
 			return errors.Wrap(err, fmt.Sprintf("Failed to parse latest block data during truncate : %s", path))
 		}
-		repo.lastHeaders = append(repo.lastHeaders, header)
+		lastHeaders = append(lastHeaders, header)
 	}
+	repo.lastHeaders = lastHeaders
 	repo.height = height
+
+	// Revert heights map
+	for _, hash := range removedHashes {
+		delete(repo.heights, hash)
+	}
 	return nil
 }
 
